@@ -119,8 +119,8 @@ CHECKS = {
         "require_ops": ["arrow.new", "arrow.is_monomorphism", "arrow.is_convex_subgraph"],
     },
     "C19": {
-        "quick": {"gen": [G("MC_C19", "MC_C19_quick.cfg")], "drive": [D("laxcat", 2000, only=["var.forget"]), D("progs", 3000, only=["var.script"])]},
-        "thorough": {"gen": [G("MC_C19", "MC_C19_thorough.cfg")], "drive": [D("laxcat", 30000, only=["var.forget"]), D("progs", 40000, only=["var.script"])]},
+        "quick": {"gen": [G("MC_C19", "MC_C19_quick.cfg"), G("MC_C19", "MC_C19_opsq.cfg")], "drive": [D("laxcat", 2000, only=["var.forget"]), D("progs", 3000, only=["var.script"])]},
+        "thorough": {"gen": [G("MC_C19", "MC_C19_thorough.cfg"), G("MC_C19", "MC_C19_ops.cfg")], "drive": [D("laxcat", 30000, only=["var.forget"]), D("progs", 40000, only=["var.script"])]},
         "require_ops": ["var.script", "var.forget", "var.forget_monogamous", "var.forget_eval"],
     },
     "C20": {
